@@ -7,6 +7,7 @@ SRC=/tmp/seed-out/$PID/change$K
 WT=/tmp/wt-$PID
 NAME=${3:-$(grep -ho -- "--test [A-Za-z0-9_]*" $SRC/README.md $SRC/demo.rs 2>/dev/null | head -1 | awk '{print $2}')}
 PKG=${4:-jsonrpsee-integration-tests}
+DDIR=${5:-tests/tests}
 OUT=$SRC/confirm.log
 export CARGO_INCREMENTAL=0 CARGO_PROFILE_DEV_DEBUG=0 CARGO_PROFILE_TEST_DEBUG=0 CARGO_NET_OFFLINE=true
 {
@@ -14,8 +15,8 @@ echo "== confirm $PID change$K test=$NAME pkg=$PKG at $(git -C /repo rev-parse -
 cd $WT || exit 2
 git checkout -q -- . ; git checkout -q --detach $(git -C /repo rev-parse HEAD) || exit 2
 # remove other demos so that they do not interfere
-mkdir -p /tmp/seed-out/$PID/parked; for f in tests/tests/*; do case "$(git ls-files --error-unmatch "$f" 2>/dev/null)" in "") mv "$f" /tmp/seed-out/$PID/parked/ ;; esac; done
-DEST=tests/tests/$NAME.rs
+mkdir -p /tmp/seed-out/$PID/parked; for f in tests/tests/* types/tests/* core/tests/* server/tests/*; do [ -e "$f" ] || continue; case "$(git ls-files --error-unmatch "$f" 2>/dev/null)" in "") mv "$f" /tmp/seed-out/$PID/parked/ ;; esac; done
+mkdir -p $DDIR; DEST=$DDIR/$NAME.rs
 cp $SRC/demo.rs $DEST
 echo "-- (1) demo on clean tree"
 cargo test --offline -p $PKG --test $NAME 2>&1 | tail -15; R1=${PIPESTATUS[0]}
